@@ -207,7 +207,9 @@ def _render(line, fmt, rng):
                     out += '<%s>' % kind
             elif fmt == 'dfxp':
                 attr = {'i': 'tts:fontStyle="italic"', 'b': 'tts:fontWeight="bold"',
-                        'u': 'tts:textDecoration="underline"', 'color': 'tts:color="%s"' % arg}[kind]
+                        'u': 'tts:textDecoration="underline"', 'color': 'tts:color="%s"' % arg,
+                        # any other value of the three attributes (noUnderline, normal, oblique ...): no flag
+                        'attr': '%s' % arg}[kind]
                 out += '<span %s>' % attr
             elif fmt == 'sami':
                 if kind in 'ibu':
